@@ -842,13 +842,7 @@ def dry_ids(conv):
 # --------------------------------------------------------------------------- #
 def explore(ctx, drv):
     rng = ctx.rng
-    items = []
-    corpus_dir = lib.os.path.join(lib.CORPUS, PID)
-    if lib.os.path.isdir(corpus_dir):
-        for f in sorted(lib.os.listdir(corpus_dir)):
-            if f.endswith(".json"):
-                d = json.load(open(lib.os.path.join(corpus_dir, f), encoding="utf-8"))
-                items.append((d["case"]["conversation"] if "case" in d else d["conversation"], "corpus:" + f))
+    items = []      # (corpus cases are replayed by harness/main.py before run())
     n = ctx.budget(250, 8000)
     for i in range(n):
         items.append((gen_conversation(rng, rng.choice([1, 2, 3, 4, 6]), with_init=rng.random() < 0.7), "generated"))
@@ -890,7 +884,8 @@ def run(ctx):
 
 
 def replay(ctx, data):
-    lib.standard_obligations(ctx, GEN, TARGETS)
+    if ctx.replay:                      # an explicit --replay; corpus replays run inside a normal check
+        lib.standard_obligations(ctx, GEN, TARGETS)
     drv = lib.Driver(PID)
     conv = data["case"]["conversation"]
     ok = run_case(ctx, drv, conv, what="replay")
